@@ -125,10 +125,20 @@ func c15DecodeCompare(c *Ctx, t reflect.Type, mk func() interface{}, doc string,
 		if !ok && c15HasDepthConflict(reflect.TypeOf(g).Elem()) {
 			class = "C15-embedded-depth"
 		}
+		if !ok && class == "" && c15FoldsToASCII(doc) {
+			class = "C15-unicode-fold-to-ascii"
+		}
 		c.Oracle("decode/"+label+"/"+mode, fmt.Sprintf("%s <- %s", reflect.TypeOf(g).Elem(), doc),
 			fmt.Sprintf("%+v err=%v", reflect.ValueOf(g).Elem().Interface(), gerr),
 			fmt.Sprintf("%+v err=%v", reflect.ValueOf(s).Elem().Interface(), serr), ok, class)
 	}
+}
+
+// c15FoldsToASCII: the document contains one of the two non-ASCII runes whose simple case folding
+// is an ASCII letter (U+017F long s, U+212A Kelvin sign), literally or as a \u escape
+func c15FoldsToASCII(doc string) bool {
+	l := strings.ToLower(doc)
+	return strings.Contains(doc, "\u017f") || strings.Contains(doc, "\u212a") || strings.Contains(l, `\u017f`) || strings.Contains(l, `\u212a`)
 }
 
 // c15HasDepthConflict: some (case-folded) JSON name is reachable through embedded structs at two
